@@ -15,7 +15,8 @@ THEOREMS = {
     "C03": ["C03.step", "C03.upgrade_run", "C03.downgrade_run", "C03.run_up", "C03.run_down", "C03.init",
             "C03.all_applied_rows", "C03.none_applied_rows", "C03.applied_iff_requires",
             "Lemmas.Rev.step_up", "Lemmas.Rev.step_down", "Lemmas.Rev.mem_unmergeTo", "Lemmas.Rev.mem_mergeFrom"],
-    "C05": ["C05.single", "C05.base", "C05.stamp_fold", "C05.sharesLineage_iff",
+    "C05": ["C05.single", "C05.single_gen", "C05.several", "C05.base", "C05.stamp_one", "C05.stamp_several", "C05.stamp_heads",
+            "C05.stamp_base", "C05.stampRevs_ids", "C05.stamp_fold", "C05.sharesLineage_iff",
             "Lemmas.Rev.fold_ok", "Lemmas.Rev.loaded_of_load"],
     "C15": ["C15.cyclic_rejected", "C15.detect_rejects_cycle", "C15.acyclic_accepted", "C15.acyclic_loads",
             "C15.acyclic_no_cycle", "C15.heads_bases", "C15.closure_total",
@@ -26,7 +27,8 @@ THEOREMS = {
 }
 PARTIAL = {
     "C05": {
-        "several destinations / 'heads'": "the loop over destinations (stampLoop, repaired by the F4 fix commit) and the resolution of the target strings are compared with the real code and judged by the Lean oracle Spec.Rev.stampOk on the implementation's rows; the theorems C05.single / C05.base are per destination",
+        "label@head / partial ids / relative targets / --purge": "C05.stamp_one, stamp_several, stamp_heads and stamp_base are end-to-end theorems about command.stamp (target resolution, the loop of _stamp_revs, the version-table statements) for targets written as full revision ids, 'heads' and 'base'; targets written as branch labels, partial ids or label@head resolve through the same code but are tied by correspondence and judged by the Lean oracle Spec.Rev.stampOk on the implementation's rows; --purge (DELETE of every row first) is compared only",
+        "several destinations that share a lineage": "C05.several assumes the destinations are pairwise outside each other's lineage (as heads are); for related destinations the result is not an antichain and the real code's answer is compared with the model only (the 'nonsensical multi-rev stamp' cases of the existing tests)",
     },
     "C16": {
         "C16.prefix_unique_partial": "full prefix rule needs every revision id to have >=4 characters (known finding F13: shorter ids are invisible to the partial lookup); C16.prefix_unique_counterexample is the kernel-checked witness",
